@@ -53,6 +53,26 @@ def run(tier, rep):
         cases.append({"id": "corpus:" + c["name"], "path": c["src"], "family": "corpus"})
     import tv
     cases += tv.prepare_cases(families.all_families(tier, seed()), root)
+    # extern declarations in every combination (functions only, types only used through functions, both, declared but unused,
+    # used only from a function that is never called): the import list must be exactly what the emitted code uses
+    ext = {
+        "functions-only": 'extern "go" "strings" "ToUpper" to_upper(s: string) -> string\nextern "go" "strings" "Repeat" repeat(s: string, n: int32) -> string\n'
+                          'fn main() -> unit {\n    let _ = string_println(to_upper("a") + repeat("b", 2));\n    ()\n}\n',
+        "two-packages": 'extern "go" "strings" "ToUpper" to_upper(s: string) -> string\nextern "go" "strconv" "Itoa" itoa(n: int32) -> string\n'
+                        'fn main() -> unit {\n    let _ = string_println(to_upper("a") + itoa(3));\n    ()\n}\n',
+        "types-and-functions": 'extern type Time\nextern "go" "time" unix(secs: int32, nanos: int32) -> Time\nextern "go" "fmt" "Sprintf" show(f: string, v: Time) -> string\n'
+                               'fn main() -> unit {\n    let _ = string_println(show("%v", unix(1, 2)));\n    ()\n}\n',
+        "declared-but-unused": 'extern "go" "strings" "ToUpper" to_upper(s: string) -> string\nfn main() -> unit {\n    let _ = string_println("x");\n    ()\n}\n',
+        "used-only-by-dead-function": 'extern "go" "strings" "ToUpper" to_upper(s: string) -> string\nfn never() -> string { to_upper("a") }\n'
+                                      'fn main() -> unit {\n    let _ = string_println("x");\n    ()\n}\n',
+        "function-value": 'extern "go" "strings" "ToUpper" to_upper(s: string) -> string\nfn ap(f: (string) -> string, s: string) -> string { f(s) }\n'
+                          'fn main() -> unit {\n    let _ = string_println(ap(to_upper, "a"));\n    ()\n}\n',
+    }
+    for en, et in ext.items():
+        dd = os.path.join(root, "extern_" + en)
+        os.makedirs(dd, exist_ok=True)
+        open(dd + "/main.gom", "w").write(et)
+        cases.append({"id": "extern:" + en, "ident": "extern:" + en, "path": dd + "/main.gom", "family": "extern"})
     st = engine.evaluate(cases, static=True, sem=False, name="c02")
     accepted = rejected = unsupported = notcompiled = 0
     fams = {}
